@@ -144,6 +144,36 @@ func OracleC03(tr *Trace) Verdict {
 				break
 			}
 		}
+		// ---- clause 2, absolute form: the store becomes unreachable for this instance for good (or for longer
+		// than the bound): whatever the heartbeat loop does or does not attempt, the claim must be down within
+		// 3H + 3T of the start of the last successful refresh
+		for _, w := range p.Windows {
+			if w.Inst != c.Inst || w.From <= c.FromT || (c.ToSeq >= 0 && w.From >= c.ToT) {
+				continue
+			}
+			last := c.FromT
+			for _, u := range hb {
+				if !failed(u) && u.IssueT < w.From && u.ReturnT <= w.From+T {
+					last = u.IssueT
+				}
+			}
+			deadline := last + 3*H + 3*T
+			if w.To != 0 && w.To < deadline+H {
+				continue
+			}
+			if deadline >= stopT || deadline >= tr.End {
+				continue
+			}
+			v.Classes = append(v.Classes, "clause2:cut-off-for-longer-than-the-bound")
+			v.Nontrivial = true
+			if c.ToSeq < 0 || c.ToT > deadline {
+				v.Viols = append(v.Viols, Viol{At: deadline, Sig: "C03 cut-off-leader-still-claims-after-3H+3T",
+					Msg: fmt.Sprintf("%s: the store is unreachable for it from %v on; its last successful refresh started at %v, so it must stop claiming by %v (3H+3T), but IsLeader() stays true until %v", who, w.From, last, deadline, c.ToT)})
+			} else if dT, ok := demoteAt(c.Obj, c.FromSeq); !ok || dT > deadline {
+				v.Viols = append(v.Viols, Viol{At: deadline, Sig: "C03 cut-off-leader-no-ondemote-within-3H+3T", Msg: fmt.Sprintf("%s: claim down at %v but OnDemote not entered by %v", who, c.ToT, deadline)})
+			}
+			break
+		}
 		// never demoted by the heartbeat mechanism after fewer than three transient failures
 		if c.ToSeq >= 0 && c.ToT < tr.End && ci.CauseOf(c.Down) == CauseHeartbeat {
 			n, perm := 0, false
